@@ -83,6 +83,22 @@ def main(argv):
     # the same documents through the other entry point, load_file(path).process(): same outcome class as through the constructor
     pick = list(range(0, len(docs), max(1, len(docs) // (400 if tier == 'quick' else 6000))))
     impl_f = run_impl('json_worker', {'cases': [{'op': 'process', 'doc': docs[k][1], 'via': 'file', 'verbose': k % 2 == 0} for k in pick]}, timeout=1800)['results']
+    # ... and once more from files holding raw UTF-8, read by an interpreter whose default text encoding is ASCII (C locale,
+    # UTF-8 mode off): how a file is decoded is the parser's business, not the locale's
+    nonascii = [k for k in range(len(docs)) if not json.dumps(docs[k][1], ensure_ascii=False).isascii()]
+    pick_c = nonascii[::max(1, len(nonascii) // (150 if tier == 'quick' else 2000))]
+    impl_c = run_impl('json_worker', {'cases': [{'op': 'process', 'doc': docs[k][1], 'via': 'file', 'raw_utf8': True} for k in pick_c]},
+                      timeout=1800, utf8=False)['results'] if pick_c else []
+    rep.extra['documents_with_non_ascii_text_loaded_under_the_C_locale'] = len(pick_c)
+    n_loc = 0
+    for k, r in zip(pick_c, impl_c):
+        io, io0 = impl_outcome(r), impl_outcome(impl[k])
+        rep.case({'via': 'file/C-locale', 'doc': docs[k][1]}, shape='via load_file, C locale/' + io[0])
+        if (io[0] == 'internal' or not agree(io, io0)) and n_loc < 3:
+            n_loc += 1
+            rep.violation(f'load_file(path).process() on a UTF-8 file under the C locale: {io[0]} {io[1] if io[0] == "internal" else ""} where the same document '
+                          f'given as a string yields {io0[0]} ({docs[k][0]})',
+                          {'document': docs[k][1], 'how': 'file written as raw UTF-8; interpreter started with LC_ALL=C PYTHONUTF8=0 PYTHONCOERCECLOCALE=0'})
     n_file = 0
     for k, r in zip(pick, impl_f):
         io, io0 = impl_outcome(r), impl_outcome(impl[k])
